@@ -837,7 +837,11 @@ func genJSONCase(r *kit.Rng) (jsonCase, []vegeta.Target, []string) {
 	jc := jsonCase{Legal: true, Encoded: true, Defaults: map[string][]string{}}
 	jc.DefaultBody = genBody(r)
 	jc.SpareCap = map[string]int{}
-	for _, d := range genDefaults(r) {
+	ds := genDefaults(r)
+	if len(ds) == 0 && r.Chance(0.5) {
+		jc.Defaults = nil // nil default header map
+	}
+	for _, d := range ds {
 		jc.Defaults[d.Key] = d.Vals
 		if d.Cap > len(d.Vals) {
 			jc.SpareCap[d.Key] = d.Cap - len(d.Vals)
@@ -923,6 +927,9 @@ func expectedJSON(jc *jsonCase, own tview) tview {
 // mkJSONDefaults builds the default header map; spare[k] > 0 gives the value slice of k that
 // much spare capacity (as repeated -header flags do: three values end up in a slice of capacity 4)
 func mkJSONDefaults(m map[string][]string, spare map[string]int) http.Header {
+	if m == nil {
+		return nil // the library accepts a nil default header
+	}
 	h := http.Header{}
 	for k, vs := range m {
 		s := make([]string, len(vs), len(vs)+spare[k])
@@ -1363,6 +1370,7 @@ func runC14(c *run.Ctx, s *kit.Summary) {
 	{
 		st := &kit.Stream{Name: "c14.http"}
 		ra := &kit.Stream{Name: "c14.http.readall"}
+		sel := &kit.Stream{Name: "c14.select.http"}
 		// streams without any target: exhaustion at once, ReadAllTargets reports ErrNoTargets
 		var special []httpCase
 		for _, src := range []string{"", "\n", "  \n\t\n", "# only a comment\n", "# c", "\n# c\n\n#d\n", "\r\n"} {
@@ -1409,6 +1417,9 @@ func runC14(c *run.Ctx, s *kit.Summary) {
 			if hc.Defaults == nil {
 				s.Count("http:nil_default_map")
 			}
+			if hc.DefaultBody == nil {
+				s.Count("http:nil_default_body")
+			}
 			for _, d := range hc.Defaults {
 				if d.Cap > len(d.Vals) {
 					s.Count("http:default_with_spare_capacity")
@@ -1445,6 +1456,20 @@ func runC14(c *run.Ctx, s *kit.Summary) {
 				// oracle: eager = the lazily produced stream (first error decides)
 				oracleReadAll(s, "http", &hc, res.codes, res.returned, tgts, err, httpErrCode)
 			}
+			// the attack command's selection: lazy = the targeter, eager = static over ReadAllTargets
+			if hc.Legal && i%5 == 2 {
+				m := 2*len(hc.Targets) + 1
+				var exp []tview
+				for _, t := range hc.Targets {
+					exp = append(exp, expectedView(&hc, t))
+				}
+				ll, lv, lc := selectAndDraw(vegeta.NewHTTPTargeter(strings.NewReader(hc.Src), hc.DefaultBody, mkDefaults(hc.Defaults)), true, m, httpErrCode)
+				el, ev, ec := selectAndDraw(vegeta.NewHTTPTargeter(strings.NewReader(hc.Src), hc.DefaultBody, mkDefaults(hc.Defaults)), false, m, httpErrCode)
+				oracleSelection(s, "http", &hc, exp, lv, ev, lc, ec, el)
+				sel.Add(httpOp(&hc, "c14.select.http", -1)+" 1 "+strconv.Itoa(m), ll)
+				sel.Add(httpOp(&hc, "c14.select.http", -1)+" 0 "+strconv.Itoa(m), el)
+				s.Count("http:selection_eager_and_lazy")
+			}
 			// the same targets file once more in this process: the same paths now carry other
 			// payloads, the defaults have other values
 			if hc.Legal && i%6 == 1 {
@@ -1473,7 +1498,7 @@ func runC14(c *run.Ctx, s *kit.Summary) {
 				oracleHTTP(s, &hc2, res2)
 				s.Count("http:same_file_decoded_again_with_other_payloads")
 				st.Add(httpOp(&hc2, "c14.http", n), res2.line)
-				tgts, err := vegeta.ReadAllTargets(vegeta.NewHTTPTargeter(strings.NewReader(hc2.Src), hc2.DefaultBody, mkDefaults(hc2.Defaults)))
+				tgts, err := safeReadAll(vegeta.NewHTTPTargeter(strings.NewReader(hc2.Src), hc2.DefaultBody, mkDefaults(hc2.Defaults)))
 				oracleReadAll(s, "http", &hc2, res2.codes, res2.returned, tgts, err, httpErrCode)
 			}
 			for p := range hc.Files {
@@ -1482,6 +1507,7 @@ func runC14(c *run.Ctx, s *kit.Summary) {
 		}
 		st.Diff(c.Driver, s)
 		ra.Diff(c.Driver, s)
+		sel.Diff(c.Driver, s)
 	}
 
 	// 3. JSON targets files, encoder, round trip
@@ -1489,6 +1515,7 @@ func runC14(c *run.Ctx, s *kit.Summary) {
 		st := &kit.Stream{Name: "c14.json"}
 		ra := &kit.Stream{Name: "c14.json.readall"}
 		var encOps, encImpl, imgOps, imgImpl []string
+		selJ := &kit.Stream{Name: "c14.select.json"}
 		var specialJ []string = []string{"", "\n", " \n\t\r\n", "{\"method\":\"GET\",\"url\":\"http://unterminated/\"}"}
 		for i := 0; i < c.N(2500, 120000)+len(specialJ); i++ {
 			var jc jsonCase
@@ -1515,6 +1542,12 @@ func runC14(c *run.Ctx, s *kit.Summary) {
 			if len(jc.SpareCap) > 0 {
 				s.Count("json:default_with_spare_capacity")
 			}
+			if jc.Defaults == nil {
+				s.Count("json:nil_default_map")
+			}
+			if jc.DefaultBody == nil {
+				s.Count("json:nil_default_body")
+			}
 			for k := range ts {
 				for _, vs := range ts[k].Header {
 					if vs == nil {
@@ -1538,7 +1571,7 @@ func runC14(c *run.Ctx, s *kit.Summary) {
 			}
 			if i%3 == 0 || i < len(specialJ) {
 				tr := vegeta.NewJSONTargeter(strings.NewReader(jc.Src), jc.DefaultBody, mkJSONDefaults(jc.Defaults, jc.SpareCap))
-				tgts, err := vegeta.ReadAllTargets(tr)
+				tgts, err := safeReadAll(tr)
 				line := ""
 				if err != nil {
 					line = "err " + strconv.Itoa(jsonErrCode(err))
@@ -1550,6 +1583,19 @@ func runC14(c *run.Ctx, s *kit.Summary) {
 				}
 				ra.Add(jsonOp(&jc, "c14.json.readall", -1), line)
 				oracleReadAll(s, "json", &jc, res.codes, res.returned, tgts, err, jsonErrCode)
+			}
+			if jc.Legal && i%5 == 2 {
+				m := 2*len(jc.Targets) + 1
+				var exp []tview
+				for _, own := range jc.Targets {
+					exp = append(exp, expectedJSON(&jc, own))
+				}
+				ll, lv, lc := selectAndDraw(vegeta.NewJSONTargeter(strings.NewReader(jc.Src), jc.DefaultBody, mkJSONDefaults(jc.Defaults, jc.SpareCap)), true, m, jsonErrCode)
+				el, ev, ec := selectAndDraw(vegeta.NewJSONTargeter(strings.NewReader(jc.Src), jc.DefaultBody, mkJSONDefaults(jc.Defaults, jc.SpareCap)), false, m, jsonErrCode)
+				oracleSelection(s, "json", &jc, exp, lv, ev, lc, ec, el)
+				selJ.Add(jsonOp(&jc, "c14.select.json", -1)+" 1 "+strconv.Itoa(m), ll)
+				selJ.Add(jsonOp(&jc, "c14.select.json", -1)+" 0 "+strconv.Itoa(m), el)
+				s.Count("json:selection_eager_and_lazy")
 			}
 			// the same lines once more in this process with other defaults
 			if jc.Legal && i%6 == 1 {
@@ -1588,7 +1634,7 @@ func runC14(c *run.Ctx, s *kit.Summary) {
 				if validUTF8Target(&ts[k]) && ts[k].Method != "" {
 					tr := vegeta.NewJSONTargeter(strings.NewReader(lines[k]), nil, nil)
 					var back vegeta.Target
-					err := tr(&back)
+					err := safeCall(tr, &back)
 					if err != nil || !equalTargets(&ts[k], &back) {
 						s.Violate(kit.Violation{Kind: "json_roundtrip", What: "a target written by the JSON target encoder does not decode back to an equal target",
 							Input: map[string]interface{}{"target": ownView(&ts[k]), "line": lines[k]}, Expected: showViewText(ownView(&ts[k])),
@@ -1616,6 +1662,7 @@ func runC14(c *run.Ctx, s *kit.Summary) {
 		}
 		st.Diff(c.Driver, s)
 		ra.Diff(c.Driver, s)
+		selJ.Diff(c.Driver, s)
 		diffLenient("c14.jsonenc", encOps, encImpl, c, s, "")
 		// image decoder: "unmodelled" is skipped unless the line came from the encoder ("!" prefix);
 		// impl "-" (decode error / required field missing) only compares when the model claims a value
@@ -1675,18 +1722,18 @@ func runRewrite(s *kit.Summary, rc *rewriteCase) {
 		src := "POST http://rw/0\n@" + rc.Path + "\n"
 		write(rc.A)
 		var t1 vegeta.Target
-		if err := vegeta.NewHTTPTargeter(strings.NewReader(src), nil, nil)(&t1); err != nil || !bytes.Equal(t1.Body, rc.A) {
+		if err := safeCall(vegeta.NewHTTPTargeter(strings.NewReader(src), nil, nil), &t1); err != nil || !bytes.Equal(t1.Body, rc.A) {
 			fail("first decode", fmt.Sprintf("%q", rc.A), fmt.Sprintf("%q err %v", t1.Body, err))
 			return
 		}
 		write(rc.B)
 		var t2 vegeta.Target
-		if err := vegeta.NewHTTPTargeter(strings.NewReader(src), nil, nil)(&t2); err != nil || !bytes.Equal(t2.Body, rc.B) {
+		if err := safeCall(vegeta.NewHTTPTargeter(strings.NewReader(src), nil, nil), &t2); err != nil || !bytes.Equal(t2.Body, rc.B) {
 			fail("a second targeter over the same targets file after the body file was rewritten", fmt.Sprintf("%q", rc.B), fmt.Sprintf("%q err %v", t2.Body, err))
 			return
 		}
 		write(rc.A)
-		ts, err := vegeta.ReadAllTargets(vegeta.NewHTTPTargeter(strings.NewReader(src+src), nil, nil))
+		ts, err := safeReadAll(vegeta.NewHTTPTargeter(strings.NewReader(src+src), nil, nil))
 		if err != nil || len(ts) != 2 || !bytes.Equal(ts[0].Body, rc.A) || !bytes.Equal(ts[1].Body, rc.A) {
 			fail("ReadAllTargets after the body file was rewritten again", fmt.Sprintf("2 x %q", rc.A), fmt.Sprint(len(ts), " targets, err ", err))
 			return
@@ -1699,12 +1746,12 @@ func runRewrite(s *kit.Summary, rc *rewriteCase) {
 		tr := vegeta.NewHTTPTargeter(strings.NewReader(src), []byte("dflt"), nil)
 		write(rc.A)
 		var t0, t1, t2 vegeta.Target
-		if err := tr(&t0); err != nil || !bytes.Equal(t0.Body, rc.A) {
+		if err := safeCall(tr, &t0); err != nil || !bytes.Equal(t0.Body, rc.A) {
 			fail("first target", fmt.Sprintf("%q", rc.A), fmt.Sprintf("%q err %v", t0.Body, err))
 			return
 		}
 		write(rc.B)
-		e1, e2 := tr(&t1), tr(&t2)
+		e1, e2 := safeCall(tr, &t1), safeCall(tr, &t2)
 		if e1 != nil || e2 != nil || string(t1.Body) != "dflt" || !bytes.Equal(t2.Body, rc.B) {
 			fail("third target names the same body file, rewritten after the first target was decoded", fmt.Sprintf("%q", rc.B), fmt.Sprintf("%q (errs %v %v)", t2.Body, e1, e2))
 			return
@@ -1867,6 +1914,103 @@ func tail(s string, n int) string {
 	return s
 }
 
+// safeReadAll: ReadAllTargets with a panic turned into an error value (a panic in the real code
+// must become a violation with the case as input, never kill the harness)
+type panicError struct{ msg string }
+
+func (p panicError) Error() string { return "panic: " + p.msg }
+
+func safeReadAll(tr vegeta.Targeter) (tgts []vegeta.Target, err error) {
+	if p, msg := kit.Recover(func() { tgts, err = vegeta.ReadAllTargets(tr) }); p {
+		return nil, panicError{msg}
+	}
+	return
+}
+
+func safeCall(tr vegeta.Targeter, t *vegeta.Target) (err error) {
+	if p, msg := kit.Recover(func() { err = tr(t) }); p {
+		return panicError{msg}
+	}
+	return
+}
+
+func isPanic(err error) bool { _, ok := err.(panicError); return ok }
+
+// selectAndDraw composes what attack.go composes: the stream targeter itself (lazy) or
+// NewStaticTargeter(ReadAllTargets(tr)...), then m draws; the targets are looked at afterwards.
+func selectAndDraw(tr vegeta.Targeter, lazy bool, m int, code func(error) int) (line string, views []tview, codes []int) {
+	if !lazy {
+		tgts, err := safeReadAll(tr)
+		if isPanic(err) {
+			return "panic", nil, nil
+		}
+		if err != nil {
+			return "sel-err " + strconv.Itoa(code(err)), nil, nil
+		}
+		tr = vegeta.NewStaticTargeter(tgts...)
+	}
+	var held []*vegeta.Target
+	for i := 0; i < m; i++ {
+		t := &vegeta.Target{}
+		if err := safeCall(tr, t); err != nil {
+			if isPanic(err) {
+				return "panic", nil, nil
+			}
+			codes = append(codes, code(err))
+			held = append(held, nil)
+		} else {
+			codes = append(codes, 0)
+			held = append(held, t)
+		}
+	}
+	line = "ok"
+	for i, t := range held {
+		if t == nil {
+			line += " | err " + strconv.Itoa(codes[i])
+			views = append(views, tview{})
+		} else {
+			v := snapshot(t)
+			views = append(views, v)
+			line += " | ok " + showView(v)
+		}
+	}
+	return
+}
+
+// oracleSelection: eager and lazy selection hand out the same targets — lazily each once, in
+// order, then ErrNoTargets; eagerly the same list in rotation.
+func oracleSelection(s *kit.Summary, format string, input interface{}, exp []tview, lazyV, eagerV []tview, lazyC, eagerC []int, eagerLine string) {
+	n := len(exp)
+	bad := ""
+	if eagerLine == "panic" || (lazyC == nil && n > 0) {
+		bad = "the selected targeter panicked"
+	} else if n == 0 {
+		if eagerLine != "sel-err 1" {
+			bad = "no target: eager selection should fail with ErrNoTargets, got " + eagerLine
+		}
+	} else {
+		for j := 0; j < len(lazyC) && bad == ""; j++ {
+			switch {
+			case j < n && (lazyC[j] != 0 || !eqView(lazyV[j], exp[j])):
+				bad = fmt.Sprintf("lazy draw %d is not target %d", j, j)
+			case j >= n && lazyC[j] != 1:
+				bad = fmt.Sprintf("lazy draw %d after the last target: code %d", j, lazyC[j])
+			}
+		}
+		if bad == "" && len(eagerC) == 0 {
+			bad = "eager selection failed: " + eagerLine
+		}
+		for j := 0; j < len(eagerC) && bad == ""; j++ {
+			if eagerC[j] != 0 || !eqView(eagerV[j], exp[j%n]) {
+				bad = fmt.Sprintf("eager draw %d is not target %d mod %d", j, j, n)
+			}
+		}
+	}
+	if bad != "" {
+		s.Violate(kit.Violation{Kind: format + "_attack_selection", What: "eager and lazy target selection do not hand out the described targets", Input: input, Observed: bad})
+	}
+}
+
 func corpusDir() string {
 	if exe, err := os.Executable(); err == nil {
 		d := filepath.Join(filepath.Dir(exe), "..", "corpus", "C14")
@@ -1932,6 +2076,8 @@ func oracleReadAll(s *kit.Summary, format string, input interface{}, codes []int
 	}
 	var bad string
 	switch {
+	case isPanic(err):
+		bad = "ReadAllTargets panicked: " + err.Error()
 	case first == 1 && n == 0:
 		if !errors.Is(err, vegeta.ErrNoTargets) {
 			bad = fmt.Sprintf("empty stream: expected ErrNoTargets, got %v", err)
